@@ -1,6 +1,6 @@
 import CssVerif.Model.StrCodec
 import CssVerif.Model.StrSafe
-/-! helper lemmas for `Props/C03.lean`: `re.sub` unfolding, `unicodesub` / `cleanstring` on plain text -/
+/-! helper lemmas for `Props/C03.lean`: `re.sub` unfolding, `unicodesub` / `stringsub` on plain text -/
 namespace CssVerif.StrCodec
 open CssVerif.Proto
 
@@ -48,9 +48,9 @@ theorem escMatch_needsBs : NeedsBs escMatch := by
   | nil => rfl
   | cons d t => simp [hc]
 
-theorem cleanMatch_needsBs : NeedsBs cleanMatch := by
+theorem strMatch_needsBs : NeedsBs strMatch := by
   intro c t hc
-  unfold cleanMatch
+  unfold strMatch
   cases t with
   | nil => rfl
   | cons d t => simp [hc]
@@ -61,11 +61,8 @@ theorem usub_cons_ne {c : Nat} (t : Cps) (hc : c ≠ 0x5C) : usub (c :: t) = c :
 theorem usub_plain_append (p s : Cps) (h : ∀ x ∈ p, x ≠ 0x5C) : usub (p ++ s) = p ++ usub s :=
   reSub_plain_append escMatch_needsBs p s h
 
-theorem clean_cons_ne {c : Nat} (t : Cps) (hc : c ≠ 0x5C) : clean (c :: t) = c :: clean t :=
-  reSub_cons_none (cleanMatch_needsBs c t hc)
-
 @[simp] theorem usub_nil : usub [] = [] := reSub_nil _
-@[simp] theorem clean_nil : clean [] = [] := reSub_nil _
+@[simp] theorem ssub_nil : ssub [] = [] := reSub_nil _
 
 theorem usub_pair (t : Cps) : usub (0x5C :: 0x5C :: t) = 0x5C :: 0x5C :: usub t := by
   have h : escMatch (0x5C :: 0x5C :: t) = some (2, [0x5C, 0x5C]) := by simp [escMatch]
@@ -100,6 +97,43 @@ theorem usub_d (t : Cps) : usub (0x5C :: 0x64 :: 0x20 :: t) = 13 :: usub t := by
 
 theorem usub_c (t : Cps) : usub (0x5C :: 0x63 :: 0x20 :: t) = 12 :: usub t := by
   simpa [usub] using reSub_cons_some (escMatch_c t)
+
+/-! ## `stringsub` = `unicodesub` on text without a raw line break (everything the serializer writes) -/
+
+theorem reSubAux_congr {m1 m2 : Cps → Option (Nat × Cps)} (P : Cps → Prop) (htail : ∀ c t, P (c :: t) → P t)
+    (hm : ∀ s, P s → m1 s = m2 s) : ∀ (s : Cps) (k : Nat), P s → reSubAux m1 k s = reSubAux m2 k s := by
+  intro s
+  induction s with
+  | nil => intro k _; cases k <;> simp [reSubAux]
+  | cons c t ih =>
+    intro k hp
+    have ht := htail c t hp
+    cases k with
+    | succ k => simp only [reSubAux]; exact ih k ht
+    | zero =>
+      simp only [reSubAux, hm _ hp]
+      cases m2 (c :: t) with
+      | none => simp only []; rw [ih 0 ht]
+      | some r => simp only []; rw [ih _ ht]
+
+def NoNl (s : Cps) : Prop := ∀ x ∈ s, isNl x = false
+
+theorem strMatch_eq_escMatch (s : Cps) (h : NoNl s) : strMatch s = escMatch s := by
+  unfold strMatch
+  match s, h with
+  | [], _ => rfl
+  | [c], _ => rfl
+  | c :: d :: t, h =>
+    have hd : isNl d = false := h d (by simp)
+    have h13 : d ≠ 13 := by intro e; subst e; simp [isNl] at hd
+    by_cases hc : c = 0x5C
+    · by_cases hd5 : d = 0x5C
+      · subst hc; subst hd5; simp [escMatch]
+      · simp [hc, hd5, h13, hd]
+    · simp [hc, escMatch]
+
+theorem ssub_eq_usub (s : Cps) (h : NoNl s) : ssub s = usub s :=
+  reSubAux_congr NoNl (fun c t hp x hx => hp x (by simp [hx])) strMatch_eq_escMatch s 0 h
 
 /-! ## hex runs -/
 
@@ -332,8 +366,7 @@ theorem usub_encTail (m : Mode) (v rest : Cps) (h : scan m v = none) :
   | case4 ht =>
     simp [encTail, midTail, encChar, midChar, usub_pair,
       usub_bs_other _ (by decide : (0x22:Nat) ≠ 0x5C) (by decide : isHex 0x22 = false)]
-  | case5 e tail hn => simp at h
-  | case6 e tail hn ih =>
+  | case5 e tail ih =>
     have e1 : encTail (0x5C :: 0x5C :: e :: tail) = 0x5C :: 0x5C :: encTail (e :: tail) := by
       simp [encTail, encChar]
     have e2 : midTail (0x5C :: 0x5C :: e :: tail) = 0x5C :: 0x5C :: midTail (e :: tail) := by
@@ -341,8 +374,8 @@ theorem usub_encTail (m : Mode) (v rest : Cps) (h : scan m v = none) :
     rw [e1, e2]
     simp only [List.cons_append]
     rw [usub_pair, ih h]
-  | case7 e tail hne hh hnum => simp [hnum] at h
-  | case8 e tail hne hh hnum ih =>
+  | case6 e tail hne hh hnum => simp [hnum] at h
+  | case7 e tail hne hh hnum ih =>
     have e1 : encTail (0x5C :: e :: tail) = 0x5C :: e :: encTail tail := by
       rw [encTail_cons _ _ (by simp), encTail_cons _ _ (by simp [hne]), encChar_plain (isHex_not_nl hh) (isHex_ne_dq hh)]
       simp [encChar]
@@ -359,9 +392,9 @@ theorem usub_encTail (m : Mode) (v rest : Cps) (h : scan m v = none) :
       exact hnum
     have h' : scan m tail = none := by simpa [hnum] using h
     rw [usub_big _ hh key, ih h']
-  | case9 e tail hne hh hnl => simp at h
-  | case10 tail _ _ _ => simp at h
-  | case11 e tail hne hh hnl hdq ih =>
+  | case8 e tail hne hh hnl => simp at h
+  | case9 tail _ _ _ => simp at h
+  | case10 e tail hne hh hnl hdq ih =>
     have hh' : isHex e = false := by simpa using hh
     have hnl' : isNl e = false := by simpa using hnl
     have e1 : encTail (0x5C :: e :: tail) = 0x5C :: e :: encTail tail := by
@@ -373,12 +406,12 @@ theorem usub_encTail (m : Mode) (v rest : Cps) (h : scan m v = none) :
     rw [e1, e2]
     simp only [List.cons_append]
     rw [usub_bs_other _ hne hh', ih h]
-  | case12 c t hc ih =>
+  | case11 c t hc ih =>
     by_cases hs : c = 0x5C ∧ t = []
     · exact absurd hs.1 hc
     · rw [encTail_cons _ _ hs, midTail_cons _ _ hs, List.append_assoc, usub_encChar _ _ hc, ih h, List.append_assoc]
 
-/-! ## `cleanstring` and `stringvalue` on the unescaped form -/
+/-! ## `stringvalue` on the unescaped form -/
 
 theorem midTail_head (d : Nat) (t : Cps) : ∃ X, midTail (d :: t) = (if d = 0x22 then 0x5C else d) :: X := by
   by_cases hs : d = 0x5C ∧ t = []
@@ -388,72 +421,6 @@ theorem midTail_head (d : Nat) (t : Cps) : ∃ X, midTail (d :: t) = (if d = 0x2
     split
     · exact ⟨_, rfl⟩
     · exact ⟨_, rfl⟩
-
-theorem clean_bs_notnl {d : Nat} (t : Cps) (h : isNl d = false) : clean (0x5C :: d :: t) = 0x5C :: clean (d :: t) := by
-  have hd : d ≠ 13 := by intro e; subst e; simp [isNl] at h
-  have hm : cleanMatch (0x5C :: d :: t) = none := by simp [cleanMatch, hd, h]
-  exact reSub_cons_none hm
-
-theorem clean_bs_end : clean [0x5C] = [0x5C] := by
-  have hm : cleanMatch [0x5C] = none := rfl
-  simpa [clean] using reSub_cons_none hm
-
-theorem clean_midChar (c : Nat) (X : Cps) (hc : c ≠ 0x5C) : clean (midChar c ++ X) = midChar c ++ clean X := by
-  unfold midChar
-  split
-  · simp [clean_bs_notnl _ (by decide : isNl 0x22 = false), clean_cons_ne _ (by decide : (0x22:Nat) ≠ 0x5C)]
-  · simp [clean_cons_ne _ hc]
-
-theorem clean_midTail (m : Mode) (hm : m.pairNl = true) (v rest : Cps) (h : scan m v = none) :
-    clean (midTail v ++ rest) = midTail v ++ clean rest := by
-  have nl5c : isNl 0x5C = false := by decide
-  have nl22 : isNl 0x22 = false := by decide
-  have ne22 : (0x22:Nat) ≠ 0x5C := by decide
-  fun_induction scan m v with
-  | case1 => simp [midTail, clean_cons_ne _ ne22]
-  | case2 => simp [midTail, clean_bs_notnl _ nl5c, clean_bs_notnl _ nl22, clean_cons_ne _ ne22]
-  | case3 ht => simp at h
-  | case4 ht =>
-    simp [midTail, midChar, clean_bs_notnl _ nl5c, clean_bs_notnl _ nl22, clean_cons_ne _ ne22]
-  | case5 e tail hn => simp at h
-  | case6 e tail hn ih =>
-    have hne : isNl e = false := by simpa [hm] using hn
-    have h' : scan m (e :: tail) = none := by simpa [hn] using h
-    have e2 : midTail (0x5C :: 0x5C :: e :: tail) = 0x5C :: 0x5C :: midTail (e :: tail) := by
-      simp [midTail, midChar]
-    obtain ⟨X, hX⟩ := midTail_head e tail
-    have hhead : isNl (if e = 0x22 then 0x5C else e) = false := by
-      split
-      · exact nl5c
-      · exact hne
-    rw [e2]
-    simp only [List.cons_append]
-    rw [clean_bs_notnl _ nl5c]
-    conv => lhs; rw [hX]
-    simp only [List.cons_append]
-    rw [clean_bs_notnl _ hhead, ← List.cons_append, ← hX, ih h']
-  | case7 e tail hne hh hnum => simp [hnum] at h
-  | case8 e tail hne hh hnum ih =>
-    have h' : scan m tail = none := by simpa [hnum] using h
-    have e2 : midTail (0x5C :: e :: tail) = 0x5C :: e :: midTail tail := by
-      rw [midTail_cons _ _ (by simp), midTail_cons _ _ (by simp [hne])]
-      simp [midChar, isHex_ne_dq hh]
-    rw [e2]
-    simp only [List.cons_append]
-    rw [clean_bs_notnl _ (isHex_not_nl hh), clean_cons_ne _ hne, ih h']
-  | case9 e tail hne hh hnl => simp at h
-  | case10 tail _ _ _ => simp at h
-  | case11 e tail hne hh hnl hdq ih =>
-    have hnl' : isNl e = false := by simpa using hnl
-    have e2 : midTail (0x5C :: e :: tail) = 0x5C :: e :: midTail tail := by
-      rw [midTail_cons _ _ (by simp), midTail_cons _ _ (by simp [hne])]
-      simp [midChar, hdq]
-    rw [e2]
-    simp only [List.cons_append]
-    rw [clean_bs_notnl _ hnl', clean_cons_ne _ hne, ih h]
-  | case12 c t hc ih =>
-    have hs : ¬ (c = 0x5C ∧ t = []) := fun hs => hc hs.1
-    rw [midTail_cons _ _ hs, List.append_assoc, clean_midChar _ _ hc, ih h, List.append_assoc]
 
 theorem replace2_cons_ne {a b : Nat} {r : Cps} {x : Nat} (t : Cps) (h : x ≠ a) :
     replace2 a b r (x :: t) = x :: replace2 a b r t := by
@@ -498,15 +465,51 @@ theorem stringvalue_midTail (v : Cps) : stringvalue (0x22 :: midTail v) = some v
   rw [replace2_cons_ne _ (by decide), replace2_midTail, inner_quoted]
 
 /-- T3.1 core: for a safe value, reading back what `helper.string` wrote gives the value -/
-theorem strD_strE_of_scan (m : Mode) (hm : m.pairNl = true) (v : Cps) (h : scan m v = none) : strD (strE v) = some v := by
+theorem encChar_noNl (c : Nat) : NoNl (encChar c) := by
+  intro x hx
+  unfold encChar at hx
+  by_cases h10 : c = 10
+  · simp [h10] at hx; rcases hx with rfl | rfl | rfl <;> decide
+  · by_cases h13 : c = 13
+    · simp [h13] at hx; rcases hx with rfl | rfl | rfl <;> decide
+    · by_cases h12 : c = 12
+      · simp [h12] at hx; rcases hx with rfl | rfl | rfl <;> decide
+      · by_cases h22 : c = 0x22
+        · simp [h22] at hx; rcases hx with rfl | rfl <;> decide
+        · simp [h10, h13, h12, h22] at hx; subst hx; simp [isNl, h10, h13, h12]
+
+/-- `helper.string` never writes a raw line break -/
+theorem encTail_noNl : ∀ v : Cps, NoNl (encTail v)
+  | [] => by intro x hx; simp [encTail] at hx; subst hx; decide
+  | [c] => by
+    intro x hx
+    simp only [encTail] at hx
+    split at hx
+    · simp at hx; rcases hx with rfl | rfl | rfl <;> decide
+    · simp only [List.mem_append, List.mem_singleton] at hx
+      rcases hx with hx | rfl
+      · exact encChar_noNl c x hx
+      · decide
+  | c :: d :: t => by
+    intro x hx
+    simp only [encTail, List.mem_append] at hx
+    rcases hx with hx | hx
+    · exact encChar_noNl c x hx
+    · exact encTail_noNl (d :: t) x hx
+
+/-- T3.1 core: for a safe value, reading back what `helper.string` wrote gives the value -/
+theorem strD_strE_of_scan (m : Mode) (v : Cps) (h : scan m v = none) : strD (strE v) = some v := by
   have e1 : usub (encTail v) = midTail v := by
     have := usub_encTail m v [] h
     simpa using this
-  have e2 : clean (midTail v) = midTail v := by
-    have := clean_midTail m hm v [] h
-    simpa using this
+  have hn : NoNl (0x22 :: encTail v) := by
+    intro x hx
+    simp only [List.mem_cons] at hx
+    rcases hx with rfl | hx
+    · decide
+    · exact encTail_noNl v x hx
   simp only [strD, strE, tokValue, helperString_eq]
-  rw [usub_cons_ne _ (by decide), e1, clean_cons_ne _ (by decide), e2, stringvalue_midTail]
+  rw [ssub_eq_usub _ hn, usub_cons_ne _ (by decide), e1, stringvalue_midTail]
 
 /-! ## the written form is one STRING token -/
 
@@ -632,17 +635,16 @@ theorem lex_encTail (m : Mode) (hm : m.trailBad = true) (v rest : Cps) (h : scan
     rw [strBody_esc1 _ hq (by decide) (by decide), strBody_close]; rfl
   | case3 ht => simp at h
   | case4 ht => exact absurd hm ht
-  | case5 e tail hn => simp at h
-  | case6 e tail hn ih =>
-    have h' : scan m (e :: tail) = none := by simpa [hn] using h
+  | case5 e tail ih =>
+    have h' : scan m (e :: tail) = none := h
     have e1 : encTail (0x5C :: 0x5C :: e :: tail) = 0x5C :: 0x5C :: encTail (e :: tail) := by
       simp [encTail, encChar]
     rw [e1]
     simp only [List.cons_append]
     rw [strBody_esc1 _ hq (by decide) (by decide), ih h']
     simp
-  | case7 e tail hne hh hnum => simp [hnum] at h
-  | case8 e tail hne hh hnum ih =>
+  | case6 e tail hne hh hnum => simp [hnum] at h
+  | case7 e tail hne hh hnum ih =>
     have h' : scan m tail = none := by simpa [hnum] using h
     have e0 : encTail (e :: tail) = e :: encTail tail := by
       rw [encTail_cons _ _ (by simp [hne]), encChar_plain (isHex_not_nl hh) (isHex_ne_dq hh)]; rfl
@@ -668,9 +670,9 @@ theorem lex_encTail (m : Mode) (hm : m.trailBad = true) (v rest : Cps) (h : scan
         intro e; subst e; simp [isTerm] at ht
     rw [strBody_big _ hq hh hp, strBody_plain _ (isHex_plainS hh), ih h']
     simp
-  | case9 e tail hne hh hnl => simp at h
-  | case10 tail _ _ _ => simp at h
-  | case11 e tail hne hh hnl hdq ih =>
+  | case8 e tail hne hh hnl => simp at h
+  | case9 tail _ _ _ => simp at h
+  | case10 e tail hne hh hnl hdq ih =>
     have hh' : isHex e = false := by simpa using hh
     have hnl' : isNl e = false := by simpa using hnl
     have h13 : e ≠ 13 := by intro e'; subst e'; simp [isNl] at hnl'
@@ -681,7 +683,7 @@ theorem lex_encTail (m : Mode) (hm : m.trailBad = true) (v rest : Cps) (h : scan
     simp only [List.cons_append]
     rw [strBody_esc1 _ hq hh' h13, ih h]
     simp
-  | case12 c t hc ih =>
+  | case11 c t hc ih =>
     have hs : ¬ (c = 0x5C ∧ t = []) := fun hs => hc hs.1
     rw [encTail_cons _ _ hs, List.append_assoc, strBody_encChar _ _ hc, ih h]
     simp [Nat.add_comm]
@@ -711,11 +713,11 @@ theorem midTail_getLast : ∀ v : Cps, (midTail v).getLast? = some 0x22
       obtain ⟨X, hX⟩ := midTail_head d t; simp [hX]
     rw [midTail, getLast?_append_ne_nil _ _ hne, ih]
 
-theorem lstrip_head {a : Nat} (t : Cps) (h : isSpaceU a = false) : lstrip (a :: t) = a :: t := by
+theorem lstrip_head {a : Nat} (t : Cps) (h : isTerm a = false) : lstrip (a :: t) = a :: t := by
   simp [lstrip, h]
 
-theorem strip_of_ends (s : Cps) {a b : Nat} (h1 : s.head? = some a) (ha : isSpaceU a = false)
-    (h2 : s.getLast? = some b) (hb : isSpaceU b = false) : strip s = s := by
+theorem strip_of_ends (s : Cps) {a b : Nat} (h1 : s.head? = some a) (ha : isTerm a = false)
+    (h2 : s.getLast? = some b) (hb : isTerm b = false) : strip s = s := by
   cases s with
   | nil => simp at h1
   | cons x t =>
@@ -750,9 +752,12 @@ theorem uritokenvalue_wrapped (Y : Cps) (hs : strip Y = Y) : uritokenvalue (urlP
     simp [urlPrefix]
   rw [this, hs]
 
+theorem ssub_urlPrefix (X : Cps) : ssub (urlPrefix ++ X) = urlPrefix ++ ssub X :=
+  reSub_plain_append strMatch_needsBs _ _ (by simp [urlPrefix])
+
 /-- quoted form: any of the two URI readers gives the value back -/
 theorem uri_quoted_core (m : Mode) (v : Cps) (h : scan m v = none) :
-    usub (urlPrefix ++ (0x22 :: encTail v) ++ [0x29]) = urlPrefix ++ (0x22 :: midTail v) ++ [0x29] ∧
+    ssub (urlPrefix ++ (0x22 :: encTail v) ++ [0x29]) = urlPrefix ++ (0x22 :: midTail v) ++ [0x29] ∧
     strip (0x22 :: midTail v) = 0x22 :: midTail v ∧ unquoteUri (0x22 :: midTail v) = some v := by
   have hlast : (0x22 :: midTail v).getLast? = some 0x22 := by
     obtain ⟨X, hX⟩ : ∃ X, midTail v = X ∧ X ≠ [] := by
@@ -764,7 +769,14 @@ theorem uri_quoted_core (m : Mode) (v : Cps) (h : scan m v = none) :
     simp only [List.cons_append, List.nil_append] at this
     rw [this, midTail_getLast]
   refine ⟨?_, ?_, ?_⟩
-  · rw [List.append_assoc, usub_urlPrefix]
+  · have hn : NoNl (0x22 :: encTail v ++ [0x29]) := by
+      intro x hx
+      simp only [List.cons_append, List.mem_cons, List.mem_append, List.mem_singleton, List.not_mem_nil, or_false] at hx
+      rcases hx with rfl | hx | rfl
+      · decide
+      · exact encTail_noNl v x hx
+      · decide
+    rw [List.append_assoc, ssub_urlPrefix, ssub_eq_usub _ hn]
     simp only [List.cons_append]
     rw [usub_cons_ne _ (by decide), usub_encTail m v [0x29] h, usub_cons_ne _ (by decide)]
     simp
@@ -780,13 +792,11 @@ theorem forbMatch_false : ∀ v : Cps, forbMatch v = false → ∀ x ∈ v, isFo
     split at h
     · simp at h
     · rename_i hc
-      split at h
-      · rename_i h10; subst h10; simp [isForb, isSpaceU] at hc
-      · intro x hx
-        simp only [List.mem_cons] at hx
-        rcases hx with rfl | hx
-        · simpa using hc
-        · exact forbMatch_false t h x hx
+      intro x hx
+      simp only [List.mem_cons] at hx
+      rcases hx with rfl | hx
+      · simpa using hc
+      · exact forbMatch_false t h x hx
 
 theorem hexTake_append_nonhex {y : Nat} (hy : isHex y = false) : ∀ (n : Nat) (u r : Cps),
     (u ++ y :: r).take (hexRun n (u ++ y :: r)) = u.take (hexRun n u)
@@ -807,13 +817,12 @@ theorem usub_unquoted (m : Mode) (v r : Cps) (h : scan m v = none) :
   | case2 => simp [usub_bs_other _ h29 x29]
   | case3 ht => simp at h
   | case4 ht => simp [usub_pair, usub_cons_ne _ h29]
-  | case5 e tail hn => simp at h
-  | case6 e tail hn ih =>
-    have h' : scan m (e :: tail) = none := by simpa [hn] using h
+  | case5 e tail ih =>
+    have h' : scan m (e :: tail) = none := h
     simp only [List.cons_append] at ih ⊢
     rw [usub_pair, ih h']
-  | case7 e tail hne hh hnum => simp [hnum] at h
-  | case8 e tail hne hh hnum ih =>
+  | case6 e tail hne hh hnum => simp [hnum] at h
+  | case7 e tail hne hh hnum ih =>
     have h' : scan m tail = none := by simpa [hnum] using h
     simp only [List.cons_append]
     have key : ¬ hexNum ((e :: (tail ++ 0x29 :: r)).take (hexRun 6 (e :: (tail ++ 0x29 :: r)))) ≤ 0x10FFFF := by
@@ -821,33 +830,36 @@ theorem usub_unquoted (m : Mode) (v r : Cps) (h : scan m v = none) :
       simp only [List.cons_append] at this
       rw [this]; exact hnum
     rw [usub_big _ hh key, ih h']
-  | case9 e tail hne hh hnl => simp at h
-  | case10 tail _ _ _ => simp at h
-  | case11 e tail hne hh hnl hdq ih =>
+  | case8 e tail hne hh hnl => simp at h
+  | case9 tail _ _ _ => simp at h
+  | case10 e tail hne hh hnl hdq ih =>
     have hh' : isHex e = false := by simpa using hh
     simp only [List.cons_append]
     rw [usub_bs_other _ hne hh', ih h]
-  | case12 c t hc ih =>
+  | case11 c t hc ih =>
     simp only [List.cons_append]
     rw [usub_cons_ne _ hc, ih h]
 
-theorem isForb_of_space {x : Nat} (h : isSpaceU x = true) : isForb x = true := by
-  simp [isForb, h]
+theorem nonforb_facts {x : Nat} (h : isForb x = false) :
+    x ≠ 0x29 ∧ isTerm x = false ∧ isNl x = false ∧ isUrlChar x = true ∧ x ≠ 0x22 ∧ x ≠ 0x27 := by
+  simp only [isForb, isSpaceU, Bool.or_eq_false_iff, Bool.and_eq_false_iff, beq_eq_false_iff_ne,
+    decide_eq_false_iff_not] at h
+  refine ⟨by omega, ?_, ?_, ?_, by omega, by omega⟩
+  · simp only [isTerm, Bool.or_eq_false_iff, beq_eq_false_iff_ne]; omega
+  · simp only [isNl, Bool.or_eq_false_iff, beq_eq_false_iff_ne]; omega
+  · simp only [isUrlChar, Bool.or_eq_true, Bool.and_eq_true, beq_iff_eq, decide_eq_true_eq]; omega
+
+/-- the unquoted form is chosen only for values made of characters the `{url}` macro accepts as they are -/
+theorem isUrlChar_of_not_forb {x : Nat} (h : isForb x = false) : isUrlChar x = true := (nonforb_facts h).2.2.2.1
 
 theorem strip_no_forb (v : Cps) (hv : ∀ x ∈ v, isForb x = false) : strip v = v := by
   cases hv' : v with
   | nil => simp [strip, lstrip]
   | cons a t =>
     have hne : v ≠ [] := by simp [hv']
-    have ha : isSpaceU a = false := by
-      cases hs : isSpaceU a with
-      | false => rfl
-      | true => have := hv a (by simp [hv']); rw [isForb_of_space hs] at this; simp at this
+    have ha : isTerm a = false := (nonforb_facts (hv a (by simp [hv']))).2.1
     have hl : v.getLast? = some (v.getLast hne) := List.getLast?_eq_some_getLast hne
-    have hb : isSpaceU (v.getLast hne) = false := by
-      cases hs : isSpaceU (v.getLast hne) with
-      | false => rfl
-      | true => have := hv _ (List.getLast_mem hne); rw [isForb_of_space hs] at this; simp at this
+    have hb : isTerm (v.getLast hne) = false := (nonforb_facts (hv _ (List.getLast_mem hne))).2.1
     rw [← hv']
     exact strip_of_ends v (by simp [hv']) ha hl hb
 
@@ -855,9 +867,7 @@ theorem unquoteUri_no_forb (v : Cps) (hv : ∀ x ∈ v, isForb x = false) : unqu
   cases v with
   | nil => rfl
   | cons q t =>
-    have hq := hv q (by simp)
-    have h1 : q ≠ 0x27 := by intro e; subst e; simp [isForb] at hq
-    have h2 : q ≠ 0x22 := by intro e; subst e; simp [isForb] at hq
+    obtain ⟨_, _, _, _, h2, h1⟩ := nonforb_facts (hv q (by simp))
     simp [unquoteUri, h1, h2]
 
 /-- T3.1 core for URLs: both URI readers (`helper.urivalue` in values, `_uritokenvalue` in @import / @namespace)
@@ -867,27 +877,24 @@ theorem uriD_uriE_of_class (v : Cps) (h : uriClass v = none) : uriD (uriE v) = s
   simp only [uriD, uriDTok, uriE, tokValue, helperUri_eq]
   by_cases hf : forbMatch v = true
   · simp only [hf, if_true] at h ⊢
-    obtain ⟨e1, e2, e3⟩ := uri_quoted_core .uriQ v h
+    obtain ⟨e1, e2, e3⟩ := uri_quoted_core .quoted v h
     rw [e1, urivalue_wrapped _ e2, uritokenvalue_wrapped _ e2, e3]
     exact ⟨rfl, rfl⟩
   · have hf' : forbMatch v = false := by simpa using hf
     simp only [hf', Bool.false_eq_true, if_false] at h ⊢
-    split at h
-    · have hv := forbMatch_false v hf'
-      have e1 : usub (urlPrefix ++ v ++ [0x29]) = urlPrefix ++ v ++ [0x29] := by
-        rw [List.append_assoc, usub_urlPrefix, usub_unquoted .uriU v [] h]
-        simp
-      rw [e1, urivalue_wrapped _ (strip_no_forb v hv), uritokenvalue_wrapped _ (strip_no_forb v hv),
-        unquoteUri_no_forb v hv]
-      exact ⟨rfl, rfl⟩
-    · simp at h
-
-theorem nonforb_facts {x : Nat} (h : isForb x = false) : x ≠ 0x29 ∧ isTerm x = false ∧ isNl x = false := by
-  simp only [isForb, isSpaceU, Bool.or_eq_false_iff, Bool.and_eq_false_iff, beq_eq_false_iff_ne,
-    decide_eq_false_iff_not] at h
-  refine ⟨by omega, ?_, ?_⟩
-  · simp only [isTerm, Bool.or_eq_false_iff, beq_eq_false_iff_ne]; omega
-  · simp only [isNl, Bool.or_eq_false_iff, beq_eq_false_iff_ne]; omega
+    have hv := forbMatch_false v hf'
+    have hn : NoNl (v ++ [0x29]) := by
+      intro x hx
+      simp only [List.mem_append, List.mem_singleton] at hx
+      rcases hx with hx | rfl
+      · exact (nonforb_facts (hv x hx)).2.2.1
+      · decide
+    have e1 : ssub (urlPrefix ++ v ++ [0x29]) = urlPrefix ++ v ++ [0x29] := by
+      rw [List.append_assoc, ssub_urlPrefix, ssub_eq_usub _ hn, usub_unquoted .unquoted v [] h]
+      simp
+    rw [e1, urivalue_wrapped _ (strip_no_forb v hv), uritokenvalue_wrapped _ (strip_no_forb v hv),
+      unquoteUri_no_forb v hv]
+    exact ⟨rfl, rfl⟩
 
 theorem wsClose_nonforb {d : Nat} (t : Cps) (h : isForb d = false) : wsClose (d :: t) = none := by
   obtain ⟨h1, h2, _⟩ := nonforb_facts h
@@ -896,45 +903,19 @@ theorem wsClose_nonforb {d : Nat} (t : Cps) (h : isForb d = false) : wsClose (d 
 theorem urlBody_close (rest : Cps) : urlBody (0x29 :: rest) = some 1 := by
   cases rest <;> simp [urlBody, isUrlChar, wsClose]
 
-theorem urlBody_unquoted : ∀ (n : Nat) (v : Cps), v.length ≤ n → (∀ x ∈ v, isForb x = false) → ctrlOk false v = true →
+theorem urlBody_unquoted : ∀ (v : Cps), (∀ x ∈ v, isForb x = false) →
     ∀ rest, urlBody (v ++ 0x29 :: rest) = some (v.length + 1)
-  | _, [], _, _, _, rest => by simpa using urlBody_close rest
-  | _, [c], _, _, hc, rest => by
-    have hu : isUrlChar c = true := by simpa [ctrlOk] using hc
+  | [], _, rest => by simpa using urlBody_close rest
+  | [c], hv, rest => by
+    have hu := isUrlChar_of_not_forb (hv c (by simp))
     simp [urlBody, hu, wsClose, urlBody_close]
-  | 0, c :: d :: v, hl, _, _, _ => by simp at hl
-  | n + 1, c :: d :: v, hl, hv, hc, rest => by
-    have hu : isUrlChar c = true := by
-      simp only [ctrlOk, Bool.or_false, Bool.and_eq_true] at hc; exact hc.1
-    have hd : isForb d = false := hv d (by simp)
-    have hv1 : ∀ x ∈ d :: v, isForb x = false := fun x hx => hv x (List.mem_cons_of_mem _ hx)
-    have hv2 : ∀ x ∈ v, isForb x = false := fun x hx => hv x (by simp [hx])
-    obtain ⟨_, _, hnl⟩ := nonforb_facts hd
-    have hws : wsClose (d :: (v ++ 0x29 :: rest)) = none := wsClose_nonforb _ hd
-    simp only [List.cons_append, urlBody, hu, if_true, hnl, hws]
-    by_cases hesc : c = 0x5C ∧ isUrlChar d = false
-    · obtain ⟨h1, h2⟩ := hesc
-      have hd5 : d ≠ 0x5C := by intro e; subst e; simp [isUrlChar] at h2
-      have hc2 : ctrlOk false v = true := by
-        simp only [ctrlOk, Bool.and_eq_true] at hc
-        have h3 := hc.2.2
-        have hb : (d == 0x5C) = false := by simp [hd5]
-        rw [hb] at h3; exact h3
-      have ih := urlBody_unquoted n v (by simp at hl; omega) hv2 hc2 rest
-      simp [h1, h2, ih]
-    · have hc1 : ctrlOk false (d :: v) = true := by
-        simp only [ctrlOk, Bool.and_eq_true, Bool.or_false, Bool.or_eq_true, beq_iff_eq] at hc ⊢
-        refine ⟨?_, hc.2.2⟩
-        rcases hc.2.1 with h | h
-        · exact h
-        · cases hud : isUrlChar d with
-          | true => rfl
-          | false => exact absurd ⟨h, hud⟩ hesc
-      have ih := urlBody_unquoted n (d :: v) (by simp at hl ⊢; omega) hv1 hc1 rest
-      simp only [List.cons_append] at ih
-      simp only [Bool.not_false, ih]
-      simp
-      intro a b; exact absurd ⟨a, b⟩ hesc
+  | c :: d :: v, hv, rest => by
+    have hu := isUrlChar_of_not_forb (hv c (by simp))
+    have hd := isUrlChar_of_not_forb (hv d (by simp))
+    have ih := urlBody_unquoted (d :: v) (fun x hx => hv x (List.mem_cons_of_mem _ hx)) rest
+    simp only [List.cons_append] at ih
+    simp only [List.cons_append, urlBody, hu, if_true, hd, ih]
+    simp
 
 theorem wsClose_close (rest : Cps) : wsClose (0x29 :: rest) = some 1 := by simp [wsClose]
 
@@ -945,7 +926,7 @@ theorem lexUri_uriE_of_class (v rest : Cps) (h : uriClass v = none) :
   simp only [uriE, helperUri_eq]
   by_cases hf : forbMatch v = true
   · simp only [hf, if_true] at h ⊢
-    have hl := lex_encTail .uriQ rfl v (0x29 :: rest) h
+    have hl := lex_encTail .quoted rfl v (0x29 :: rest) h
     have e : urlPrefix ++ 0x22 :: encTail v ++ [0x29] ++ rest
         = 0x75 :: 0x72 :: 0x6C :: 0x28 :: 0x22 :: (encTail v ++ 0x29 :: rest) := by simp [urlPrefix]
     rw [e]
@@ -958,10 +939,8 @@ theorem lexUri_uriE_of_class (v rest : Cps) (h : uriClass v = none) :
     simp [urlPrefix]; omega
   · have hf' : forbMatch v = false := by simpa using hf
     simp only [hf', Bool.false_eq_true, if_false] at h ⊢
-    split at h
-    · rename_i hc
-      have hv := forbMatch_false v hf'
-      have hb := urlBody_unquoted v.length v (Nat.le_refl _) hv hc rest
+    · have hv := forbMatch_false v hf'
+      have hb := urlBody_unquoted v hv rest
       have e : urlPrefix ++ v ++ [0x29] ++ rest = 0x75 :: 0x72 :: 0x6C :: 0x28 :: (v ++ 0x29 :: rest) := by simp [urlPrefix]
       rw [e]
       simp only [lexUriPlain, List.take_succ_cons, List.take_zero, if_true, List.drop_succ_cons, List.drop_zero]
@@ -981,7 +960,6 @@ theorem lexUri_uriE_of_class (v rest : Cps) (h : uriClass v = none) :
           simp [lexString, h1, h2]
       simp only [tw, List.length_nil, List.drop_zero, ls, hb, Option.map_some]
       simp [urlPrefix]
-    · simp at h
 
 /-! ## `unicodesub` is idempotent -/
 
@@ -1178,9 +1156,9 @@ theorem usub_no_bs (s : Cps) (h : ∀ x ∈ s, x ≠ 0x5C) : usub s = s := by
   have := usub_plain_append s [] h
   simpa using this
 
-theorem clean_no_bs (s : Cps) (h : ∀ x ∈ s, x ≠ 0x5C) : clean s = s := by
-  have := reSub_plain_append cleanMatch_needsBs s [] h
-  simpa [clean] using this
+theorem ssub_no_bs (s : Cps) (h : ∀ x ∈ s, x ≠ 0x5C) : ssub s = s := by
+  have := reSub_plain_append strMatch_needsBs s [] h
+  simpa [ssub] using this
 
 theorem replace2_no_a {a b : Nat} {r : Cps} : ∀ s : Cps, (∀ x ∈ s, x ≠ a) → replace2 a b r s = s
   | [], _ => rfl
@@ -1204,8 +1182,6 @@ theorem forbMatch_eq_any : ∀ v : Cps, forbMatch v = v.any isForb
     simp only [forbMatch, List.any_cons]
     cases h : isForb c with
     | true => simp
-    | false =>
-      have h10 : c ≠ 10 := by intro e; subst e; simp [isForb, isSpaceU] at h
-      simp [h10, forbMatch_eq_any t]
+    | false => simp [forbMatch_eq_any t]
 
 end CssVerif.StrCodec
